@@ -27,6 +27,8 @@ def run(chk):
                        "missing mass/number is a configuration error; lattice defaults 0.0 / fcc", 9)
     chk.rule("C03.R", "Reference_Data.get: [Species] data override the built-in element table; unknown species/property raise", 5)
 
+    chk.rule("C03.H", "lines 1-3 of the file are comment lines for any list of comment strings (shorter lists padded, longer ones cut)", 5)
+    chk.attempt("H", lambda: W.setfl_comment_lines(chk, "C03.H", P, "writeSetFL"))
     chk.attempt("W1", lambda: W.eam_class_vs_spec(chk, "C03.W1", P, "SetFL_EAMTabulation", "setfl"))
     chk.attempt("W2", lambda: W.eam_api_vs_spec(chk, "C03.W2", P, "atsim.potentials._lammpsWriteEAM", "writeSetFL", "setfl_api"))
     for target in ("setfl", "lammps_eam_alloy", "LAMMPS_eam_alloy"):
@@ -65,6 +67,15 @@ def builder_obligations(chk, P, rule, fs=False):
         got = pot.attrs.get(attr)
         ok = got is not None and got.key() == w.key()
         chk.ob(rule, "EAMPotential.%s receives %s" % (attr, w), ok, site=site, found=got, expect=w, key="%s|ctor|%s" % (rule, attr))
+
+    # the Python API's own defaults
+    ecls = P.cls("atsim.potentials._eam_potential", "EAMPotential")
+    I3 = W.make_interp(P)
+    e = I3.instantiate(ecls, [Const("Xx"), W.nsym("Z"), W.nsym("m"), W.param("F_Xx"), W.param("rho_Xx")], {}, None)
+    lc, lt = I3.getattr(e, "latticeConstant"), I3.getattr(e, "latticeType")
+    chk.ob(rule, "EAMPotential(species, number, mass, embed, density) without lattice data has the documented defaults 0.0 / 'fcc'",
+           isinstance(lc, Num) and lc.const() == 0 and isinstance(lt, Const) and lt.v == "fcc", site=ecls.lookup("__init__").site(),
+           found=(lc, lt), expect="(0.0, 'fcc')", key="%s|api-defaults" % rule)
 
     # failure behaviour of the four getters
     rde = P.cls("atsim.potentials.referencedata._reference_data", "Reference_Data_Exception")
